@@ -122,7 +122,13 @@ pub fn init_record(fs: &str,label: &str,disk: &mut Box<dyn DiskFS>) -> String {
         "fat" => {
             let img = disk.get_img();
             let boot = img.read_block(Block::FAT((0,1))).unwrap_or(vec![0;512]);
-            match fsck::fat::params_from_boot(&boot) { Some(p) => { let cb = p.bytes_per_sec*p.sec_per_clus; (p.root_entries,0,cb/32-2,cb/32) }, None => (0,0,0,0) }
+            // a volume label takes one root entry of the fresh volume away (first byte neither 0 nor E5, attribute bit 3)
+            match fsck::fat::params_from_boot(&boot) { Some(p) => {
+                let cb = p.bytes_per_sec*p.sec_per_clus;
+                let root_sec = p.reserved_secs + p.num_fats*p.secs_per_fat;
+                let first = img.read_block(Block::FAT((root_sec as u64,1))).unwrap_or(vec![0;512]);
+                let label = if first[0]!=0 && first[0]!=0xe5 && first[11] & 8 != 0 {1} else {0};
+                (p.root_entries - label,0,cb/32-2,cb/32) }, None => (0,0,0,0) }
         },
         _ => (0,0,0,0)
     };
@@ -181,4 +187,39 @@ pub fn pdtree(toks: &[&str]) -> String {
         _ => return format!("storage {}",storage)
     }
     format!("{} {} {} ; {} ; {}",storage,key,blocks,master.join(","),pairs.join(","))
+}
+
+
+/// cpmext id label exm bs spx v3 chunkspec eof : store one file with the given chunk set and end of file on a fresh CP/M volume, then read
+/// its directory entries raw: "idx rc lb p,p,..;..." (pointers relative to the first one handed out) | chunk indices of get | eof of get
+pub fn cpmext(toks: &[&str]) -> String {
+    let label = toks[2];
+    let v3 = toks[6]=="1";
+    let fs = if v3 {"cpm3"} else {"cpm2"};
+    let mut d = match crate::fsrun::mkfs(fs,label) { Ok(d) => d, Err(e) => return format!("MKFS-ERR {}",e) };
+    let idx: Vec<usize> = if toks[7]=="-" { vec![] } else { toks[7].split(',').flat_map(|p| { if let Some((a,b)) = p.split_once('-') { (a.parse::<usize>().unwrap()..=b.parse::<usize>().unwrap()).collect::<Vec<usize>>() } else { vec![p.parse::<usize>().unwrap()] } }).collect() };
+    let eof: usize = toks[8].parse().unwrap();
+    let mut f = match d.new_fimg(None,false,"T.DAT") { Ok(f) => f, Err(e) => return format!("ERR {}",e) };
+    let unit = f.chunk_len;
+    for i in &idx { f.chunks.insert(*i,crate::fsrun::payload(1,*i,unit)); }
+    f.set_eof(eof);
+    if let Err(e) = d.put(&f) { return format!("refused {}",e); }
+    let got = match d.get("T.DAT") { Ok(g) => g, Err(e) => return format!("get-err {}",e) };
+    let mut gi: Vec<usize> = got.chunks.keys().cloned().collect(); gi.sort();
+    let kname = label.split(':').nth(1).unwrap_or("5.25in");
+    let dpb = a2kit::bios::dpb::DiskParameterBlock::create(&crate::geom::kind_of(kname));
+    let img = d.get_img();
+    let mut dir: Vec<u8> = Vec::new();
+    for b in 0..dpb.dir_blocks() { dir.extend_from_slice(&img.read_block(a2kit::fs::Block::CPM((b,dpb.bsh,dpb.off))).unwrap_or(vec![0xe5;dpb.block_size()])); }
+    let two = dpb.ptr_size()==2;
+    let mut ents: Vec<(usize,usize,usize,Vec<usize>)> = Vec::new();
+    for e in dir.chunks(32).take(dpb.dir_entries()) {
+        if e[0]!=0 || &e[1..9]!=b"T       " { continue; }
+        let ptrs: Vec<usize> = if two { (0..8).map(|i| e[16+2*i] as usize + 256*e[17+2*i] as usize).collect() } else { e[16..32].iter().map(|x| *x as usize).collect() };
+        ents.push(((e[12] & 31) as usize + 32*e[14] as usize,e[15] as usize,e[13] as usize,ptrs));
+    }
+    ents.sort();
+    let base = ents.iter().flat_map(|e| e.3.iter().cloned()).filter(|p| *p>0).min().unwrap_or(0);
+    let txt: Vec<String> = ents.iter().map(|(i,rc,lb,p)| format!("{} {} {} {}",i,rc,lb,p.iter().map(|x| if *x==0 {"-".to_string()} else {(x-base).to_string()}).collect::<Vec<String>>().join(","))).collect();
+    format!("{} | {} | {}",txt.join(";"),gi.iter().map(|x| x.to_string()).collect::<Vec<String>>().join(","),got.get_eof())
 }
